@@ -337,6 +337,18 @@ def run(chk):
                 tmap.setdefault((('struct' if kd == 'struct' else 'enum'), n), []).append(mem)
         seen_n = {}
         dup_names = {key for key, v in im.items() if len(v) > 1} | {key for key, v in tmap.items() if len(v) > 1}
+        # ... and every name the source program gives to two annotated items, even when one of them is a unit struct, becomes an
+        # alias, or fails to parse (then only one is collected and the positional comparison below would pair the wrong twins)
+        idents = [n for _, n, _ in tr]
+        for n in set(idents):
+            if idents.count(n) > 1:
+                dup_names |= {('struct', n), ('enum', n)}
+        seen_model = {}
+        for kind, ident, dom, members in mmem[k]:
+            seen_model[unS(ident)] = seen_model.get(unS(ident), 0) + 1
+        for n, c in seen_model.items():
+            if c > 1:
+                dup_names |= {('struct', n), ('enum', n)}
         for kind, ident, dom, members in mmem[k]:
             name = unS(ident)
             if members == 'none':
